@@ -9,6 +9,7 @@ import (
 	"fmt"
 	"math"
 	"reflect"
+	"strconv"
 	"strings"
 	"testing"
 	"time"
@@ -83,6 +84,8 @@ type c16Case struct {
 	Out      []string `json:"out"`
 	Fail     bool     `json:"fail,omitempty"` // the host function reports an error (when it can)
 	Reenter  bool     `json:"reenter,omitempty"`
+	Name     string   `json:"name,omitempty"`  // the name registered and called ("" = probe); may be the name of a built-in
+	Prior    bool     `json:"prior,omitempty"` // a raw handler is registered under the name first: a refused registration leaves it in place
 	Args     []mval   `json:"args"`
 }
 
@@ -376,14 +379,19 @@ func runC16(c c16Case) Verdict {
 	for i, a := range c.Args {
 		args[i] = scriptArg(a, c.Kind == "command")
 	}
+	name := c.Name
+	if name == "" {
+		name = "probe"
+	}
+	builtin := name != "probe"
 	var stmt string
 	switch {
 	case c.Kind == "command":
-		stmt = "<<probe " + strings.Join(args, " ") + ">>"
+		stmt = "<<" + name + " " + strings.Join(args, " ") + ">>"
 	case asValue:
-		stmt = "{cap(probe(" + strings.Join(args, ", ") + "))}"
+		stmt = "{cap(" + name + "(" + strings.Join(args, ", ") + "))}"
 	default:
-		stmt = "<<call probe(" + strings.Join(args, ", ") + ")>>"
+		stmt = "<<call " + name + "(" + strings.Join(args, ", ") + ")>>"
 	}
 	src := "title: Start\n---\n" + stmt + "\nafter\n===\n"
 	dr, err := ysgo.NewDialogueRunner(nil, "abc", strings.NewReader(src))
@@ -395,14 +403,30 @@ func runC16(c c16Case) Verdict {
 		captured = append(captured, toMvals(a)...)
 		return variable.NewString(""), nil
 	})
+	priorCalls := 0
+	if c.Prior && c.Kind != "nonfunc" {
+		if c.Kind == "command" {
+			dr.AddCommand(name, func([]*variable.Value) <-chan error {
+				priorCalls++
+				ch := make(chan error, 1)
+				ch <- nil
+				return ch
+			})
+		} else {
+			dr.AddFunction(name, func([]*variable.Value) (*variable.Value, error) {
+				priorCalls++
+				return variable.NewNumber(-77), nil
+			})
+		}
+	}
 	var regErr error
 	var panicked any
 	func() {
 		defer func() { panicked = recover() }()
 		if c.Kind == "command" {
-			regErr = dr.ConvertAndAddCommand("probe", value)
+			regErr = dr.ConvertAndAddCommand(name, value)
 		} else {
-			regErr = dr.ConvertAndAddFunction("probe", value)
+			regErr = dr.ConvertAndAddFunction(name, value)
 		}
 	}()
 	sig := c.signature()
@@ -423,6 +447,17 @@ func runC16(c c16Case) Verdict {
 		ev := h.step(0)
 		if ev.K == "panic" {
 			return failf("registering %s was refused (%v); calling the name afterwards as %s panicked: %s", sig, regErr, stmt, ev.Text)
+		}
+		if c.Prior && c.Kind != "nonfunc" {
+			// the refused registration changed nothing: the handler registered before is still the one that is called
+			if priorCalls != 1 || len(probe.calls) != 0 || ev.K == "err" {
+				return failf("a handler was registered under %q, then registering %s under the same name was refused (%v): the call %s must still reach the first handler; it ran %d times, the refused one %d times, element %s",
+					name, sig, regErr, stmt, priorCalls, len(probe.calls), ev)
+			}
+			return Verdict{NonTrivial: true, Classes: append(cls, "refused", "earlier-handler-kept")}
+		}
+		if builtin {
+			return Verdict{Classes: append(cls, "refused", "built-in-name")}
 		}
 		if ev.K != "err" {
 			return failf("registering %s was refused (%v); calling the name afterwards as %s must be an error, got %s (host function calls: %v)", sig, regErr, stmt, ev, probe.calls)
@@ -497,6 +532,9 @@ func runC16(c c16Case) Verdict {
 	}
 	if len(probe.calls) != 1 {
 		return failf("%s: the host function ran %d times, want once (element: %s)", desc, len(probe.calls), ev)
+	}
+	if priorCalls != 0 {
+		return failf("%s: the handler registered earlier under the same name ran %d times although it had been replaced", desc, priorCalls)
 	}
 	got := probe.calls[0]
 	if len(got) != len(want) {
@@ -578,7 +616,15 @@ func genC16Arg(t *rapid.T, class byte) mval {
 
 func genC16(t *rapid.T) c16Case {
 	kind := rapid.SampledFrom([]string{"function", "function", "command", "command", "nonfunc"}).Draw(t, "kind")
-	c := c16Case{Kind: kind, Fail: rapid.IntRange(0, 2).Draw(t, "fail") == 0, Reenter: rapid.IntRange(0, 3).Draw(t, "reenter") == 0}
+	c := c16Case{Kind: kind, Fail: rapid.IntRange(0, 2).Draw(t, "fail") == 0, Reenter: rapid.IntRange(0, 3).Draw(t, "reenter") == 0, Prior: rapid.IntRange(0, 3).Draw(t, "prior") == 0}
+	if rapid.IntRange(0, 3).Draw(t, "builtinname") == 0 {
+		// the host may register under the name of a built-in: its function then is the one the script calls
+		if kind == "command" {
+			c.Name = "wait"
+		} else {
+			c.Name = rapid.SampledFrom([]string{"round", "floor", "ceil", "inc", "dec", "decimal", "integer", "round_places", "string", "number", "bool", "dice", "random", "random_range", "visited", "visited_count"}).Draw(t, "builtin")
+		}
+	}
 	if kind == "nonfunc" {
 		c.NonFunc = rapid.SampledFrom([]string{"nil", "int", "string", "struct", "slice"}).Draw(t, "nonfunc")
 		return c
@@ -699,3 +745,105 @@ func TestC16SignatureTable(t *testing.T) {
 			}
 		})
 }
+
+// ---------------------------------------------------------------------------------------
+// one conversion rule: whichever way fractional numbers become integers of the declared kind (the statement does not
+// say; Go's own conversion truncates), it is one rule - the same for 0.75 as for a value an ulp below a whole number
+
+type c16ModeCase struct {
+	Kind   string    `json:"kind"` // int, int8, int16, int32, int64, MyInt
+	Values []float64 `json:"values"`
+}
+
+var c16Modes = map[string]func(float64) float64{
+	"truncation":                math.Trunc,
+	"floor":                     math.Floor,
+	"ceiling":                   math.Ceil,
+	"nearest, ties away from 0": math.Round,
+	"nearest, ties to even":     math.RoundToEven,
+	"nearest, ties up":          func(f float64) float64 { return math.Floor(f + 0.5) },
+}
+
+func runC16Mode(c c16ModeCase) Verdict {
+	var received []int64
+	ft := reflect.FuncOf([]reflect.Type{reflect.SliceOf(c16Types[c.Kind])}, nil, true)
+	fn := reflect.MakeFunc(ft, func(args []reflect.Value) []reflect.Value {
+		for j := 0; j < args[0].Len(); j++ {
+			received = append(received, args[0].Index(j).Int())
+		}
+		return nil
+	})
+	args := make([]string, len(c.Values))
+	for i, v := range c.Values {
+		if v < 0 {
+			args[i] = "-" + strconv.FormatFloat(-v, 'f', -1, 64)
+		} else {
+			args[i] = strconv.FormatFloat(v, 'f', -1, 64)
+		}
+	}
+	src := "title: Start\n---\n<<call probe(" + strings.Join(args, ", ") + ")>>\nafter\n===\n"
+	dr, err := ysgo.NewDialogueRunner(nil, "abc", strings.NewReader(src))
+	if err != nil {
+		return failf("script does not load: %v\n%s", err, src)
+	}
+	if err := dr.ConvertAndAddFunction("probe", fn.Interface()); err != nil {
+		return failf("registering func(...%s) failed: %v", c.Kind, err)
+	}
+	h := &host{dr: dr, storer: newRecStorer()}
+	ev := stepTimed(h, 0, 20*time.Second)
+	if ev.K == "err" {
+		return Verdict{Discard: "the library refuses fractional numbers for integer parameters (allowed)"}
+	}
+	if ev.K != "line" || len(received) != len(c.Values) {
+		return failf("func(...%s) called with %v: unexpected element %s, received %v", c.Kind, args, ev, received)
+	}
+	var fitting []string
+	for name, mode := range c16Modes {
+		ok := true
+		for i, v := range c.Values {
+			if float64(received[i]) != mode(v) {
+				ok = false
+			}
+		}
+		if ok {
+			fitting = append(fitting, name)
+		}
+	}
+	if len(fitting) == 0 {
+		return failf("func(...%s) called with %v received %v: no single conversion rule (truncation, floor, ceiling, nearest with any tie rule) explains all of them", c.Kind, args, received)
+	}
+	nearWhole := false
+	for _, v := range c.Values {
+		if v != math.Trunc(v) && (math.Nextafter(v, math.Inf(1)) == math.Ceil(v) || math.Nextafter(v, math.Inf(-1)) == math.Floor(v) || math.Abs(v-math.Round(v)) < 1e-12) {
+			nearWhole = true
+		}
+	}
+	return Verdict{NonTrivial: nearWhole, Classes: []string{"kind=" + c.Kind}}
+}
+
+var c16Mode = Register(Prop[c16ModeCase]{
+	ID: "C16", Name: "conversion-rule",
+	Gen: func(t *rapid.T) c16ModeCase {
+		c := c16ModeCase{Kind: rapid.SampledFrom([]string{"int", "int8", "int16", "int32", "int64", "MyInt"}).Draw(t, "kind")}
+		plain := []float64{0.75, -0.75, 0.25, -0.25, 1.5, 2.5, -2.5, 3.5, 99.5, 0.5, -0.5, 12.34, -7.89}
+		// a few ulps from a whole number, on either side (0.57*100, 0.29*100, 4.35*100, ...)
+		near := []float64{0.57 * 100, 0.29 * 100, -4.35 * 100 / 10, 1.1 * 3 * 10, 126.99999999999999, 28.999999999999996, 57.00000000000001, -56.99999999999999, 0.9999999999999999, 1.0000000000000002, -0.9999999999999999, 99.99999999999999}
+		n := rapid.IntRange(3, 6).Draw(t, "n")
+		for i := 0; i < n; i++ {
+			pool := plain
+			if i%2 == 1 || rapid.Bool().Draw(t, "near") {
+				pool = near
+			}
+			v := rapid.SampledFrom(pool).Draw(t, "v")
+			if rapid.IntRange(0, 4).Draw(t, "ulps") == 0 {
+				v = math.Nextafter(math.Round(v), rapid.SampledFrom([]float64{math.Inf(1), math.Inf(-1)}).Draw(t, "side"))
+			}
+			c.Values = append(c.Values, v)
+		}
+		c.Values = append(c.Values, rapid.SampledFrom(plain).Draw(t, "plain"))
+		return c
+	},
+	Run: runC16Mode,
+})
+
+func TestC16ConversionRule(t *testing.T) { Check(t, c16Mode) }
